@@ -180,4 +180,44 @@ theorem extractNo_ids (ids : List IDSrc)
     simp only [List.map_cons, extractNo, fromString_idString i.mid i.rid h1 h2]
     rw [ih (fun j hj => h j (by simp [hj]))]
 
+/-! ## the public `Fetch` handler of the proxy (`proxyapi/grpc_fetch.go`): request texts -> IDs -/
+
+/-- the loop over `req.Ids`: a text that does not parse is logged and skipped, the others keep their order -/
+def apiParse (reqIds : List (List Nat)) : List (Nat × Nat) := reqIds.filterMap fromString
+
+/-- after the loop: `conf.MaxRequestedDocuments` (0 = no limit) is checked on the PARSED count; `none` = InvalidArgument -/
+def apiFetchIDs (maxReq : Nat) (reqIds : List (List Nat)) : Option (List (Nat × Nat)) :=
+  if maxReq > 0 ∧ (apiParse reqIds).length > maxReq then none else some (apiParse reqIds)
+
+/-- **fetching what search returned**: the texts search put into its response name exactly those IDs, in order -/
+theorem apiParse_idStrings (ids : List (Nat × Nat))
+    (h : ∀ i, i ∈ ids → i.1 < 18446744073709551616 ∧ i.2 < 18446744073709551616) :
+    apiParse (ids.map fun i => idString i.1 i.2) = ids := by
+  unfold apiParse
+  induction ids with
+  | nil => rfl
+  | cons i tl ih =>
+    obtain ⟨h1, h2⟩ := h i (by simp)
+    simp only [List.map_cons, List.filterMap_cons, fromString_idString i.1 i.2 h1 h2]
+    rw [ih (fun j hj => h j (by simp [hj]))]
+
+/-- a malformed text among them is dropped and does not disturb the others -/
+theorem apiParse_skips_malformed (a b : List (List Nat)) (bad : List Nat) (hbad : fromString bad = none) :
+    apiParse (a ++ bad :: b) = apiParse a ++ apiParse b := by
+  unfold apiParse
+  rw [List.filterMap_append, List.filterMap_cons, hbad]
+
+/-- the ID text of every document sent back parses to the ID that was asked for: the client can pair answers with
+requests (`Id: doc.ID.String()`) -/
+theorem apiSent_pairs (mid rid : Nat) (hm : mid < 18446744073709551616) (hr : rid < 18446744073709551616) :
+    apiParse [idString mid rid] = [(mid, rid)] := by
+  simpa using apiParse_idStrings [(mid, rid)] (by intro i hi; simp at hi; subst hi; exact ⟨hm, hr⟩)
+
+theorem apiFetchIDs_within (maxReq : Nat) (ids : List (Nat × Nat))
+    (h : ∀ i, i ∈ ids → i.1 < 18446744073709551616 ∧ i.2 < 18446744073709551616)
+    (hmax : maxReq = 0 ∨ ids.length ≤ maxReq) :
+    apiFetchIDs maxReq (ids.map fun i => idString i.1 i.2) = some ids := by
+  unfold apiFetchIDs
+  rw [apiParse_idStrings ids h, if_neg (by omega)]
+
 end SV.IDStr
